@@ -20,6 +20,11 @@ import (
 )
 
 var prop = flag.String("prop", "C01", "C01..C06")
+var profile = flag.String("profile", "mock", "mock = mocktikv's MVCC store | full = the Lean store (cgv-full) with async commit / 1PC / CheckSecondaryLocks")
+var fullExe = flag.String("full", "", "path of the cgv-full executable (profile full)")
+
+// lean is the Lean store server of profile full (nil in profile mock)
+var lean *hub.LeanProc
 
 var (
 	run *vx.Run
@@ -47,6 +52,15 @@ func main() {
 	// would otherwise dial the mock store's address over real gRPC and keep the store blacklisted on a wall-clock timer)
 	must(failpoint.Enable("tikvclient/fastBackoffBySkipSleep", "return(true)"))
 	must(failpoint.Enable("tikvclient/injectLiveness", `return("reachable")`))
+	if *profile == "full" {
+		var err error
+		lean, err = hub.StartLean(*fullExe)
+		if err != nil {
+			fmt.Fprintln(os.Stderr, "cannot start the Lean store:", err)
+			os.Exit(2)
+		}
+		defer lean.Close()
+	}
 	rec = hub.NewRecorder(run)
 	rnd = vx.NewRand(run.Seed)
 	t0 := time.Now()
@@ -82,7 +96,7 @@ func must(err error) {
 
 func smoke() {
 	for i := 0; i < 20; i++ {
-		w := hub.NewWorld(rec, hub.Options{Seed: rnd.U64(), Splits: [][]byte{[]byte("k3")}})
+		w := hub.NewWorld(rec, hub.Options{Full: lean, Seed: rnd.U64(), Splits: [][]byte{[]byte("k3")}})
 		a, b := w.NewClient("a"), w.NewClient("b")
 		done := make(chan struct{}, 2)
 		go func() {
